@@ -1613,9 +1613,9 @@ class _Relaxer:
     def iv(self, t):
         k = t.get_id()
         if k in self.iv_cache:
-            return self.iv_cache[k]
+            return self.iv_cache[k][0]
         r = self._iv(t)
-        self.iv_cache[k] = r
+        self.iv_cache[k] = (r, t)      # keep t alive (ast ids are reused after free)
         return r
 
     def _iv(self, t):
@@ -1675,9 +1675,9 @@ class _Relaxer:
     def tr(self, t):
         k = t.get_id()
         if k in self.cache:
-            return self.cache[k]
+            return self.cache[k][0]
         r = self._tr(t)
-        self.cache[k] = r
+        self.cache[k] = (r, t)
         return r
 
     def _tr(self, t):
